@@ -282,6 +282,12 @@ def require_all(
     def authenticate(req: falcon.Request) -> AuthContext:
         claims = gate(req)
         if inner is None:
+            if claims.get("verified") == "false":
+                # An allow-mode gate returns (rather than raises) for a request
+                # without a valid proof. With no inner authenticator nothing has
+                # vouched for the caller: proceed exactly as an anonymous request
+                # would, keeping the gate's claims for observability.
+                return AuthContext(domain=None, authenticated=False, claims={gate.claims_key: claims})
             return AuthContext(
                 domain=gate.name,
                 authenticated=True,
